@@ -187,6 +187,14 @@ def templates(tier):
     for e1 in Em:
         yield "local-import-constant", f"from mc_c06_helpers import KK\nreturn ({e1}) * KK"
         yield "module-constant-vs-helper-constant", f"return ({e1}) * KK + hm.KK"
+    # a local that carries the name of a module-level constant (K = 2.5, KK = 7.0 in the function's module) - also when
+    # its value is zero, equal to an argument, or bound in a branch
+    for e1 in Em:
+        for zero in ("0.0", "0", "x - x", "y * 0", e1):
+            yield "local-shadows-module-constant", f"K = {zero}\nreturn ({e1}) + K * 3"
+            yield "local-shadows-module-constant", f"KK, t = {zero}, {e1}\nreturn t - KK"
+        yield "local-shadows-module-constant-branch", f"K = 0.0\nif x > y:\n    K = {e1}\nreturn K + y"
+        yield "argument-named-like-constant", f"return ({e1}) * K"  # evaluated as f(x, y) with the module constant K
     yield "call-permuted-names", "return hs(y, x)"
     yield "call-permuted-names", "return hs(x, y)"
     yield "call-nested", "return h(h(x, y), h(y, x))"
